@@ -170,6 +170,27 @@ func (r *runner) run(p *Plan) {
 				r.sl.SetState(addr, []byte(op.K), v, nil)
 			}
 			r.emit(map[string]interface{}{"ev": "W", "sl": slot(op.A, op.Kind, op.K), "v": wv(op.V), "raw": op.V, "j": true})
+		case "AddBal", "SubBal": // AddBalance / SubBalance: read-modify-write of the balance
+			if r.flushed {
+				continue
+			}
+			pre := r.sl.GetBalance(addr)
+			d, _ := new(big.Int).SetString(op.V, 10)
+			nv := new(big.Int).Add(pre, d)
+			if op.Op == "SubBal" {
+				nv = new(big.Int).Sub(pre, d)
+				if nv.Sign() < 0 {
+					continue
+				}
+				r.emit(map[string]interface{}{"ev": "R", "sl": slot(op.A, "bal", ""), "v": pre.String()})
+				r.sl.(*ledger.SimpleLedger).SubBalance(addr, d)
+			} else {
+				r.emit(map[string]interface{}{"ev": "R", "sl": slot(op.A, "bal", ""), "v": pre.String()})
+				r.sl.(*ledger.SimpleLedger).AddBalance(addr, d)
+			}
+			if d.Sign() != 0 {
+				r.emit(map[string]interface{}{"ev": "W", "sl": slot(op.A, "bal", ""), "v": nv.String(), "raw": op.Op + op.V, "j": true})
+			}
 		case "Add": // non-journaled storage write
 			if r.flushed {
 				continue
@@ -313,12 +334,17 @@ func genOps(rng *rand.Rand, n int, long bool) []Op {
 			ops = append(ops, Op{Op: "Set", A: a, Kind: "st", K: pick(keys), V: pick(stVals)})
 		case c < 11:
 			ops = append(ops, Op{Op: "Add", A: a, K: pick(keys), V: pick(stVals)})
-		case c < 13:
+		case c < 12:
 			ops = append(ops, Op{Op: "Set", A: a, Kind: "bal", V: fmt.Sprintf("%d", rng.Intn(4))})
+		case c < 13:
+			ops = append(ops, Op{Op: pick([]string{"AddBal", "AddBal", "SubBal"}), A: a, V: fmt.Sprintf("%d", rng.Intn(3))})
 		case c < 14:
 			ops = append(ops, Op{Op: "Set", A: a, Kind: "non", V: fmt.Sprintf("%d", rng.Intn(3))})
 		case c < 15:
-			ops = append(ops, Op{Op: "Set", A: a, Kind: "code", V: pick([]string{"c1", "c2"})})
+			ops = append(ops, Op{Op: "Set", A: acctNames[rng.Intn(2)], Kind: "code", V: pick([]string{"c1", "c2", "c3"})})
+			if rng.Intn(2) == 0 {
+				ops = append(ops, Op{Op: "Get", A: acctNames[rng.Intn(2)], Kind: "code"})
+			}
 		case c < 21:
 			kd := pick([]string{"st", "st", "st", "bal", "non", "code"})
 			ops = append(ops, Op{Op: "Get", A: a, Kind: kd, K: pick(keys)})
@@ -334,6 +360,9 @@ func genOps(rng *rand.Rand, n int, long bool) []Op {
 			ops = append(ops, Op{Op: "Flush"})
 			if rng.Intn(3) == 0 {
 				ops = append(ops, Op{Op: "Get", A: a, Kind: "st", K: pick(keys)}, Op{Op: "Query", A: a, Prefix: "k"})
+			}
+			if rng.Intn(2) == 0 {
+				ops = append(ops, Op{Op: "ReadAll"}) // reads served by the account cache between flush and commit
 			}
 			ops = append(ops, Op{Op: "Commit"})
 			blocks++
@@ -364,11 +393,24 @@ func genOps(rng *rand.Rand, n int, long bool) []Op {
 // C10 histories: the same final change set realised through different orders / detours / cache histories
 func genRootFamily(rng *rand.Rand, base string, idx int) []*Plan {
 	pick := func(s []string) string { return s[rng.Intn(len(s))] }
-	// a prefix history (committed blocks) shared by the whole family
+	// a prefix history (committed blocks) shared by the whole family; every write changes its slot
 	var prefix []Op
+	cur := map[string]string{}
 	for b := 0; b < rng.Intn(3); b++ {
 		for i := 0; i < 1+rng.Intn(4); i++ {
-			prefix = append(prefix, Op{Op: "Set", A: acctNames[rng.Intn(2)], Kind: "st", K: pick(keys), V: pick(stVals[1:])})
+			o := Op{Op: "Set", A: acctNames[rng.Intn(2)], Kind: "st", K: pick(keys), V: pick([]string{"v", "w", "x1"})}
+			if cur[slot(o.A, "st", o.K)] == o.V {
+				continue
+			}
+			cur[slot(o.A, "st", o.K)] = o.V
+			prefix = append(prefix, o)
+		}
+		if rng.Intn(3) > 0 {
+			o := Op{Op: "Set", A: acctNames[rng.Intn(2)], Kind: "bal", V: fmt.Sprintf("%d", 10+rng.Intn(5))}
+			if cur[slot(o.A, "bal", "")] != o.V {
+				cur[slot(o.A, "bal", "")] = o.V
+				prefix = append(prefix, o)
+			}
 		}
 		prefix = append(prefix, Op{Op: "Flush"}, Op{Op: "Commit"})
 	}
@@ -381,7 +423,11 @@ func genRootFamily(rng *rand.Rand, base string, idx int) []*Plan {
 		var o Op
 		switch rng.Intn(6) {
 		case 0:
-			o = Op{Op: "Set", A: a, Kind: "bal", V: fmt.Sprintf("%d", 1+rng.Intn(5))}
+			if rng.Intn(2) == 0 {
+				o = Op{Op: "AddBal", A: a, Kind: "bal", V: fmt.Sprintf("%d", 1+rng.Intn(5))}
+			} else {
+				o = Op{Op: "Set", A: a, Kind: "bal", V: fmt.Sprintf("%d", 1+rng.Intn(5))}
+			}
 		case 1:
 			o = Op{Op: "Set", A: a, Kind: "non", V: fmt.Sprintf("%d", 1+rng.Intn(3))}
 		case 2:
@@ -458,6 +504,66 @@ func genRootFamily(rng *rand.Rand, base string, idx int) []*Plan {
 	return plans
 }
 
+// C12 histories: build a chain of blocks (creations, overwrites, deletions, code changes), roll back to a
+// target, continue differently, read everything back; refused targets too
+func genRollFamily(rng *rand.Rand, name string) *Plan {
+	pick := func(s []string) string { return s[rng.Intn(len(s))] }
+	var ops []Op
+	block := func(codeOK bool) {
+		for i := 0; i < 1+rng.Intn(4); i++ {
+			a := acctNames[rng.Intn(2)]
+			switch c := rng.Intn(10); {
+			case c < 2 && codeOK:
+				ops = append(ops, Op{Op: "Set", A: a, Kind: "code", V: pick([]string{"c1", "c2", "c3"})})
+			case c < 4:
+				ops = append(ops, Op{Op: "Set", A: a, Kind: "bal", V: fmt.Sprintf("%d", 1+rng.Intn(9))})
+			case c < 5:
+				ops = append(ops, Op{Op: "Set", A: a, Kind: "non", V: fmt.Sprintf("%d", 1+rng.Intn(5))})
+			case c < 6:
+				ops = append(ops, Op{Op: "Add", A: a, K: pick(keys), V: pick(stVals)})
+			case c < 7:
+				ops = append(ops, Op{Op: "Get", A: a, Kind: pick([]string{"st", "code", "bal"}), K: pick(keys)})
+			default:
+				ops = append(ops, Op{Op: "Set", A: a, Kind: "st", K: pick(keys), V: pick(stVals)})
+			}
+		}
+		ops = append(ops, Op{Op: "Flush"}, Op{Op: "Commit"})
+	}
+	h := 2 + rng.Intn(5)
+	if rng.Intn(4) == 0 {
+		h = 11 + rng.Intn(4)
+	}
+	for i := 0; i < h; i++ {
+		block(true)
+	}
+	ops = append(ops, Op{Op: "ReadAll"})
+	for round := 0; round < 1+rng.Intn(3); round++ {
+		t := rng.Intn(h + 1)
+		if rng.Intn(5) == 0 {
+			t = h + 1 + rng.Intn(2) // higher: must be refused
+		}
+		if rng.Intn(2) == 0 && h > 2 {
+			t = h - 1 - rng.Intn(2)
+		}
+		if rng.Intn(4) == 0 {
+			ops = append(ops, Op{Op: "Reopen"})
+		}
+		ops = append(ops, Op{Op: "Rollback", T: t}, Op{Op: "ReadAll"})
+		if t < h && (t >= h-10 || h <= 10) && (t > 0 || h <= 10) {
+			h = t // accepted (the spec decides; this only steers the generator)
+		}
+		for i := 0; i < 1+rng.Intn(2); i++ {
+			block(rng.Intn(3) == 0)
+			h++
+		}
+		ops = append(ops, Op{Op: "ReadAll"})
+		if rng.Intn(3) == 0 {
+			ops = append(ops, Op{Op: "Reopen"}, Op{Op: "ReadAll"})
+		}
+	}
+	return &Plan{Name: name, Ops: ops}
+}
+
 func main() {
 	plansFile := flag.String("plans", "", "JSON plans")
 	outDir := flag.String("out", ".", "")
@@ -465,6 +571,7 @@ func main() {
 	n := flag.Int("n", 50, "")
 	long := flag.Bool("long", false, "")
 	roots := flag.Int("roots", 0, "number of C10 root families")
+	rolls := flag.Int("rolls", 0, "number of C12 rollback histories")
 	flag.Parse()
 	var plans []*Plan
 	if *plansFile != "" {
@@ -486,6 +593,9 @@ func main() {
 		}
 		for i := 0; i < *roots; i++ {
 			plans = append(plans, genRootFamily(rng, fmt.Sprintf("root-%d", *seed), i)...)
+		}
+		for i := 0; i < *rolls; i++ {
+			plans = append(plans, genRollFamily(rng, fmt.Sprintf("roll-%d-%d", *seed, i)))
 		}
 	}
 	os.MkdirAll(*outDir, 0755)
